@@ -363,7 +363,9 @@ fn evaluate(case: &Case, orc: &Oracle, values: &[Val], obs: &Observed) -> Vec<Fi
                 && j + 1 < case.arms.len()
                 && !case.arms[..j].iter().any(|p| p.is_catch_all_like_compiler());
             let key = if first_interior_catch_all {
-                "unreachable-arm-not-warned|arm-is-first-interior-catch-all".to_string()
+                // kind and features are part of the key: on a tree where the interior catch-all
+                // arm IS checked, the remaining cases are the ones whose cause is the analysis itself
+                format!("unreachable-arm-not-warned|arm-is-first-interior-catch-all|{kind}|{feat}")
             } else {
                 format!("unreachable-arm-not-warned|{kind}|{feat}")
             };
